@@ -133,6 +133,10 @@ def sweeps(tier, rng):
                     step = max(1, len(order) // (60 if tier == "quick" else 400))
                     for gid in range(0, len(order), step):
                         nme = order[gid]
+                        if "glyf" in f:
+                            g0 = f["glyf"][nme]
+                            if getattr(g0, "flags", None) is not None and g0.numberOfContours > 0 and any(fl & 0x80 for fl in g0.flags):
+                                continue      # cubic-in-glyf is an experimental format this HarfBuzz build reads differently: no independent oracle
                         gobj = gs[nme]
                         pen = DecomposingRecordingPen(gs); gobj.draw(pen)
                         a = _flat(pen.value); b = _flat(h.outline(gid))
